@@ -9,6 +9,8 @@ use crate::world::World;
 
 #[derive(Clone, Debug)]
 pub struct Profile {
+    /// many consecutive busy blocks (C18: more snapshots inside one TWAP window than any short history has)
+    pub long_busy: bool,
     pub prop: String,
     pub min_steps: usize,
     pub max_steps: usize,
@@ -21,6 +23,7 @@ pub struct Profile {
 
 pub fn profile_for(prop: &str) -> Profile {
     let mut p = Profile {
+        long_busy: false,
         prop: prop.to_string(),
         min_steps: 30,
         max_steps: 90,
@@ -33,8 +36,11 @@ pub fn profile_for(prop: &str) -> Profile {
         "C01" => {
             p.w = [60, 10, 2, 14, 4, 1, 0];
         }
-        "C02" | "C10" => {
+        "C02" => {
             p.w = [55, 18, 5, 12, 5, 3, 2];
+        }
+        "C10" => {
+            p.w = [52, 18, 5, 12, 5, 3, 5];
         }
         "C03" => {
             p.w = [50, 16, 5, 10, 8, 6, 3];
@@ -327,12 +333,15 @@ impl Gen {
     }
 
     fn clock(&mut self, rng: &mut Rng) -> Option<(u64, u64)> {
-        if self.burst_left > 0 {
+        if self.burst_left > 0 && !self.profile.long_busy {
             self.burst_left -= 1;
             return None;
         }
         if rng.chance(self.profile.p_same_block_burst.0, self.profile.p_same_block_burst.1) {
             self.burst_left = rng.range(1, 6) as u32;
+        }
+        if self.profile.long_busy {
+            return Some((1, *rng.pick(&[1u64, 5, 15, 15, 60])));
         }
         if rng.chance(self.profile.p_clock.0, self.profile.p_clock.1) {
             let dt = *rng.pick(&DTS);
@@ -702,7 +711,39 @@ impl Gen {
         }
     }
 
+    /// Byzantine address arguments: the position key is derived from the concatenation of vAMM address and trader
+    /// address, so an account whose name completes a truncated vAMM address aims at another trader's slot
+    fn gen_collision(&mut self, r: &mut Runner, rng: &mut Rng) -> Option<Step> {
+        let holders: Vec<(usize, String)> = r.obs.pos.iter().filter(|(_, p)| p.size != 0).map(|(k, _)| k.clone()).collect();
+        if holders.is_empty() {
+            return None;
+        }
+        let (v, victim) = rng.pick(&holders).clone();
+        let va = r.w.addrs.vamms[v].clone();
+        if va.len() < 5 {
+            return None;
+        }
+        let k = rng.range(1, 2) as usize;
+        let (head, tail) = va.split_at(va.len() - k);
+        if head.len() < 3 {
+            return None;
+        }
+        let actor = format!("{}{}", tail, victim);
+        let msg = match rng.below(5) {
+            0 | 1 => serde_json::json!({"close_position": {"vamm": head, "quote_asset_limit": "0"}}),
+            2 => serde_json::json!({"withdraw_margin": {"vamm": head, "amount": "1"}}),
+            3 => serde_json::json!({"deposit_margin": {"vamm": head, "amount": "1"}}),
+            _ => serde_json::json!({"open_position": {"vamm": head, "side": "sell", "margin_amount": "1000", "leverage": r.w.d.to_string(), "base_asset_limit": "0"}}),
+        };
+        Some(Step::new(&actor, Op::RawEngine { json: msg.to_string() }))
+    }
+
     fn gen_adversary(&mut self, r: &mut Runner, rng: &mut Rng) -> Step {
+        if matches!(self.profile.prop.as_str(), "C10" | "C03") && rng.chance(2, 3) {
+            if let Some(st) = self.gen_collision(r, rng) {
+                return st;
+            }
+        }
         let mut st = self.gen_admin(r, rng);
         st.actor = (*rng.pick(&["stranger", "trader0", "keeper", "@engine", "@if", "@vamm0", "newowner"])).to_string();
         st
